@@ -221,7 +221,9 @@ func (ra *RouteAuthenticator) Authenticate(req *http.Request, route *MatchedRout
 	for _, scheme := range ra.Schemes {
 		authenticator, ok := ra.Authenticator[scheme]
 		if !ok {
-			continue
+			// a required scheme without a registered authenticator can never be satisfied:
+			// the other schemes of this requirement must not be enough.
+			return false, nil, nil
 		}
 		applies, princ, err := authenticator.Authenticate(&security.ScopedAuthRequest{
 			Request:        req,
